@@ -7,6 +7,7 @@ import (
 	"io"
 	"io/ioutil"
 	"net/http"
+	"sort"
 	"strconv"
 	"strings"
 )
@@ -82,7 +83,15 @@ func Parse(r *http.Request) (resp *ParseRequestResponse, finalErr error) {
 			return nil, errors.New("file map is empty")
 		}
 
-		for filePos, paths := range filePosMap {
+		// in the order of the file positions, so that the same faulty request is always
+		// refused for the same reason
+		filePositions := make([]string, 0, len(filePosMap))
+		for filePos := range filePosMap {
+			filePositions = append(filePositions, filePos)
+		}
+		sort.Strings(filePositions)
+		for _, filePos := range filePositions {
+			paths := filePosMap[filePos]
 			file, header, err := r.FormFile(filePos)
 			if err != nil {
 				return nil, fmt.Errorf("file with index %s not found: %s", filePos, err)
